@@ -253,7 +253,7 @@ def scalar_spec(x, t):
     import pathlib
     import uuid
     if t is decimal.Decimal:
-        return ["dec", str(x)] if x.is_finite() else None
+        return ["dec", str(x)]
     if t is fractions.Fraction:
         return ["frac", x.numerator, x.denominator] if abs(x.numerator) < 2 ** 62 and x.denominator < 2 ** 62 else None
     if t is complex:
@@ -909,8 +909,9 @@ def main():
     import impl  # noqa: F401
     # harness classes (one frozen dataclass per declared scalar type) are created once, before any fork: creating
     # them is the dataclasses module's work, no typelib function is called
+    import c12_acceptors
     import c12_families
-    for t in c12_families.all_types():
+    for t in c12_families.all_types() + c12_acceptors.all_types():
         mk_type(["F", t])
     if "--fresh" in sys.argv:
         import warnings
